@@ -390,6 +390,10 @@ func VH_printShared(which int) {
 	case 1: // [o, o]
 		node = &ast.ArrayLiteral{Elements: []ast.Expr{ident("o", 2), ident("o", 2)}, Line: 2}
 		part = "k0:5"
+	case 3: // {a: o, b: o, c: {d: o}}: an object holding the same object under several properties
+		env.Define("p", map[string]interface{}{"a": obj, "b": obj, "c": map[string]interface{}{"d": obj}})
+		node = ident("p", 2)
+		part = "k0:5"
 	default: // [[o], o, [r, o]]
 		node = &ast.ArrayLiteral{Elements: []ast.Expr{&ast.ArrayLiteral{Elements: []ast.Expr{ident("o", 2)}, Line: 2}, ident("o", 2), &ast.ArrayLiteral{Elements: []ast.Expr{ident("r", 2), ident("o", 2)}, Line: 2}}, Line: 2}
 		part = "k0:5"
@@ -399,10 +403,50 @@ func VH_printShared(which int) {
 	verifAssert("shared-print-one-line", hvCountStdout() == 1 && hvCountStderr() == 0)
 	if hvCountStdout() == 1 {
 		text := verifEventText(0)
-		if which == 2 {
+		if which == 3 {
+			verifAssert("printed-value-shows-a-shared-part-every-time", verifTextContainsInOrder(text, "a:", part, "b:", part, "d:", part))
+		} else if which == 2 {
 			verifAssert("printed-value-shows-a-shared-part-every-time", verifTextContainsInOrder(text, part, part, "1 2", part))
 		} else {
 			verifAssert("printed-value-shows-a-shared-part-every-time", verifTextContainsInOrder(text, part, part))
 		}
+	}
+}
+
+// nfcTexts: texts that are not in NFC — a Latin letter followed by a combining accent (NFC
+// composes it), the composition-excluded Bangla U+09DF / U+09DC (NFC decomposes them), and
+// the two-part vowel sign written as its parts U+09C7 U+09BE (NFC composes U+09CB).
+var nfcTexts = []string{"cafe\u0301", "k\u09df", "\u09ac\u09dc", "\u0995\u09c7\u09be"}
+
+// VH_printNFC (C15): the whole line দেখাও writes is in NFC and shows the text, wherever the text
+// sits: as the printed string (0), inside an array (1), as a property value (2), as a property
+// NAME (3), as name and value in an object inside an array (4).
+func VH_printNFC(where int) {
+	t := nfcTexts[verifChoice(len(nfcTexts))]
+	in := NewInterpreter()
+	env := environment.NewEnvironmentWithParent(in.globals)
+	sv, _ := in.eval(lit(stringLiteralValue([]rune(t)), 2), env, false)
+	var v interface{}
+	switch where {
+	case 0:
+		v = sv
+	case 1:
+		v = []interface{}{sv, 7.0}
+	case 2:
+		v = map[string]interface{}{"a": sv}
+	case 3:
+		v = map[string]interface{}{t: 1.0}
+	default:
+		v = []interface{}{map[string]interface{}{t: sv}}
+	}
+	env.Define("x", v)
+	utils.HadError, utils.HadRuntimeError = false, false
+	verifClearEvents()
+	in.eval(&ast.PrintStatement{Expression: ident("x", 2)}, env, false)
+	verifAssert("nested-print-one-line", hvCountStdout() == 1 && hvCountStderr() == 0)
+	if hvCountStdout() == 1 {
+		text := verifEventText(0)
+		verifAssert("printed-line-is-in-nfc", norm.NFC.String(text) == text)
+		verifAssert("nested-string-prints-as-its-characters", verifTextContainsInOrder(text, norm.NFC.String(t)))
 	}
 }
